@@ -6,11 +6,18 @@
 -/
 import MySensors.Lemmas.GwWire
 import MySensors.Properties.C05Table
+import MySensors.Model.Persist
 
 namespace MySensors
 
 def GoodVal (c : ConstId) (vt : Int) (v : Str) : Prop :=
   evalV (payloadRule (Tables.tables c) (Tables.tables c).mtSet vt) v = true ∧ carryable v
+
+/-- children ids and value types in protocol range, battery a percentage, version a sanitised string
+    (what the C11 round-trip invariant needs of a node) -/
+def NodeBounds (n : Node) : Prop :=
+  (∀ p ∈ n.children, (0 ≤ p.1 ∧ p.1 ≤ 255) ∧ ∀ q ∈ p.2.values, 0 ≤ q.1 ∧ q.1 ≤ 255) ∧
+  (0 ≤ n.battery ∧ n.battery ≤ 100) ∧ ∃ w, n.version = Persist.loadVersion w
 
 structure EmitInv (c : ConstId) (g : GW) : Prop where
   const : g.const = c
@@ -22,7 +29,9 @@ structure EmitInv (c : ConstId) (g : GW) : Prop where
     aget vt dv = some (some v) → (∃ m, createSetMessage g k cid (some vt) v 0 = .ok m) ∧ carryable v
   clock : numDigits g.clock ≤ PyTables.intMaxDigits
   disk : ∀ d, g.disk = some d → ∀ k p, aget k d = some p →
-    p.id = k ∧ ∀ cid ch vt v, aget cid p.children = some ch → aget vt ch.values = some v → GoodVal c vt v
+    p.id = k ∧ (∀ cid ch vt v, aget cid p.children = some ch → aget vt ch.values = some v → GoodVal c vt v) ∧
+    NodeBounds p.restore
+  bounds : ∀ k n, aget k g.sensors = some n → NodeBounds n
 
 def SentWire (c : ConstId) (o : Out) : Prop := ∀ l ∈ o.sent, ∃ x : Msg, l = encLine x ∧ Wire c x
 
@@ -58,8 +67,15 @@ theorem emitInv_setNode {c : ConstId} (g : GW) (k : Int) (n n' : Node) (hn : age
     (hv : EmitInv c g → ∀ cid ch vt v, aget cid n'.children = some ch → aget vt ch.values = some v → GoodVal c vt v)
     (hd : EmitInv c g → ∀ cid dv vt v, aget cid n'.desired = some dv → aget vt dv = some (some v) →
       (∃ m, createSetMessage g k cid (some vt) v 0 = .ok m) ∧ carryable v)
+    (hb : EmitInv c g → NodeBounds n')
     (hi : EmitInv c g) : EmitInv c (setNode g k n') := by
-  refine ⟨hi.const, ?_, ?_, ?_, ?_, hi.clock, hi.disk⟩
+  refine ⟨hi.const, ?_, ?_, ?_, ?_, hi.clock, hi.disk, ?_⟩
+  rotate_left 4
+  · intro j x hx
+    unfold setNode at hx
+    by_cases e : j = k
+    · subst e; simp only [aget_aset_same, Option.some.injEq] at hx; subst hx; exact hb hi
+    · simp only [aget_aset_ne k j n' g.sensors e] at hx; exact hi.bounds j x hx
   · intro j x hx
     unfold setNode at hx
     by_cases e : j = k
@@ -89,15 +105,16 @@ theorem eo_setNode_alert {c : ConstId} (g : GW) (k : Int) (n n' : Node) (m : Msg
     (hq : EmitInv c g → ∀ l ∈ n'.queue, ∃ x : Msg, l = encLine x ∧ Wire c x)
     (hv : EmitInv c g → ∀ cid ch vt v, aget cid n'.children = some ch → aget vt ch.values = some v → GoodVal c vt v)
     (hd : EmitInv c g → ∀ cid dv vt v, aget cid n'.desired = some dv → aget vt dv = some (some v) →
-      (∃ m, createSetMessage g k cid (some vt) v 0 = .ok m) ∧ carryable v) :
+      (∃ m, createSetMessage g k cid (some vt) v 0 = .ok m) ∧ carryable v)
+    (hb : EmitInv c g → NodeBounds n') :
     EO c g (alert (setNode g k n') m) := by
   refine ⟨rfl, ?_, fun _ l hl => by simp [alert] at hl⟩
   intro hi
-  have h := emitInv_setNode g k n n' hn hid hq hv hd hi
-  exact ⟨h.const, h.ids, h.queue, h.values, h.desired, h.clock, h.disk⟩
+  have h := emitInv_setNode g k n n' hn hid hq hv hd hb hi
+  exact ⟨h.const, h.ids, h.queue, h.values, h.desired, h.clock, h.disk, h.bounds⟩
 
 theorem eo_alert (c : ConstId) (g : GW) (m : Msg) : EO c g (alert g m) :=
-  ⟨rfl, fun hi => ⟨hi.const, hi.ids, hi.queue, hi.values, hi.desired, hi.clock, hi.disk⟩,
+  ⟨rfl, fun hi => ⟨hi.const, hi.ids, hi.queue, hi.values, hi.desired, hi.clock, hi.disk, hi.bounds⟩,
     fun _ l hl => by simp [alert] at hl⟩
 
 theorem eo_route {c : ConstId} (g : GW) (m : Msg) (hw : EmitInv c g → Wire c m) : EO c g (route g m) := by
@@ -111,7 +128,7 @@ theorem eo_route {c : ConstId} (g : GW) (m : Msg) (hw : EmitInv c g → Wire c m
       · rename_i n hn
         refine ⟨rfl, ?_, fun _ l hl => by simp [ret] at hl⟩
         intro hi
-        refine emitInv_setNode g m.node n { n with queue := n.queue ++ [encLine m] } hn rfl ?_ ?_ ?_ hi
+        refine emitInv_setNode g m.node n { n with queue := n.queue ++ [encLine m] } hn rfl ?_ ?_ ?_ ?_ hi
         · intro hi l hl
           simp only [List.mem_append, List.mem_singleton] at hl
           rcases hl with hl | rfl
@@ -119,6 +136,7 @@ theorem eo_route {c : ConstId} (g : GW) (m : Msg) (hw : EmitInv c g → Wire c m
           · exact ⟨m, rfl, hw hi⟩
         · intro hi cid ch vt v h1 h2; exact hi.values _ n cid ch vt v hn h1 h2
         · intro hi cid dv vt v h1 h2; exact hi.desired _ n cid dv vt v hn h1 h2
+        · intro hi; exact hi.bounds _ n hn
     · refine ⟨rfl, id, ?_⟩
       intro hi l hl
       simp only [emit, List.mem_singleton] at hl
@@ -201,12 +219,13 @@ theorem eo_smartSleep {c : ConstId} (g : GW) (node : Int) : EO c g (smartSleep g
   · rename_i n hn
     refine ⟨rfl, ?_, ?_⟩
     · intro hi
-      refine emitInv_setNode g node n { initSleep n with queue := [] } hn rfl ?_ ?_ ?_ hi
+      refine emitInv_setNode g node n { initSleep n with queue := [] } hn rfl ?_ ?_ ?_ ?_ hi
       · intro _ l hl; simp at hl
       · intro hi cid ch vt v h1 h2; exact hi.values _ n cid ch vt v hn h1 h2
       · intro hi cid dv vt v h1 h2
         obtain ⟨dv0, h3, h4⟩ := initSleep_sub n cid dv vt v h1 h2
         exact hi.desired _ n cid dv0 vt v hn h3 h4
+      · intro hi; exact hi.bounds _ n hn
     · intro hi l hl
       simp only [List.mem_append] at hl
       rcases hl with hl | hl
@@ -217,6 +236,7 @@ theorem eo_smartSleep {c : ConstId} (g : GW) (node : Int) : EO c g (smartSleep g
 
 theorem type_of_handler5 (c : ConstId) (t : Int) (h : HandlerId)
     (hl : lookup t (Tables.tables c).typeHandlers = some h) :
+    (h = .handle_presentation → t = (Tables.tables c).mtPresentation) ∧
     (h = .handle_set → t = (Tables.tables c).mtSet) ∧ (h = .handle_req → t = (Tables.tables c).mtReq) ∧
     (h = .handle_internal → t = (Tables.tables c).mtInternal) ∧
     (h = .handle_stream → t = (Tables.tables c).mtStream) := by
@@ -225,7 +245,7 @@ theorem type_of_handler5 (c : ConstId) (t : Int) (h : HandlerId)
     simp [Tables.tables, Tables.v14_typeHandlers, Tables.v15_typeHandlers, Tables.v20_typeHandlers,
       Tables.v21_typeHandlers, Tables.v22_typeHandlers] at hm <;>
     rcases hm with ⟨rfl, rfl⟩ | ⟨rfl, rfl⟩ | ⟨rfl, rfl⟩ | ⟨rfl, rfl⟩ | ⟨rfl, rfl⟩ <;>
-    refine ⟨?_, ?_, ?_, ?_⟩ <;> intro e <;> first | rfl | cases e
+    refine ⟨?_, ?_, ?_, ?_, ?_⟩ <;> intro e <;> first | rfl | cases e
 
 
 /-! ### small combinators -/
@@ -252,6 +272,8 @@ theorem eo_then {c : ConstId} (g g1 : GW) (r : Res) (h1 : EO c g (ret g1)) (h2 :
   rw [e] at this
   exact this
 
+theorem defaultVersion_loaded : (['1', '.', '4'] : Str) = Persist.loadVersion ['1', '.', '4'] := by decide
+
 theorem eo_addSensor (c : ConstId) (g : GW) (id : Int) : EO c g (ret (addSensor g id)) := by
   unfold addSensor
   split
@@ -271,7 +293,12 @@ theorem eo_addSensor (c : ConstId) (g : GW) (id : Int) : EO c g (ret (addSensor 
         split at hx
         · rename_i e; cases hx; exact Or.inr ⟨rfl, e, rfl⟩
         · cases hx
-    refine ⟨hi.const, ?_, ?_, ?_, ?_, hi.clock, hi.disk⟩
+    refine ⟨hi.const, ?_, ?_, ?_, ?_, hi.clock, hi.disk, ?_⟩
+    rotate_left 4
+    · intro j x hx
+      rcases key j x hx with h | ⟨_, _, rfl⟩
+      · exact hi.bounds j x h
+      · exact ⟨by intro p hp; simp at hp, ⟨Int.le_refl 0, by show (0 : Int) ≤ 100; decide⟩, ⟨['1', '.', '4'], defaultVersion_loaded⟩⟩
     · intro j x hx
       rcases key j x hx with h | ⟨_, e, rfl⟩
       · exact hi.ids j x h
@@ -289,10 +316,93 @@ theorem eo_addSensor (c : ConstId) (g : GW) (id : Int) : EO c g (ret (addSensor 
       · exact hi.desired j x cid dv vt v h h1 h2
       · simp [aget] at h1
 
+theorem mem_aset {α : Type} (k : Int) (v : α) (l : List (Int × α)) (p : Int × α) (h : p ∈ aset k v l) :
+    p ∈ l ∨ p = (k, v) := by
+  induction l with
+  | nil => simp [aset] at h; exact Or.inr h
+  | cons q l ih =>
+    obtain ⟨k', v'⟩ := q
+    unfold aset at h
+    split at h
+    · rename_i e
+      simp only [List.mem_cons] at h
+      rcases h with h | h
+      · exact Or.inr (by rw [h, e])
+      · exact Or.inl (List.mem_cons_of_mem _ h)
+    · simp only [List.mem_cons] at h
+      rcases h with h | h
+      · exact Or.inl (by rw [h]; exact List.mem_cons_self)
+      · rcases ih h with h' | h'
+        · exact Or.inl (List.mem_cons_of_mem _ h')
+        · exact Or.inr h'
+
+
+theorem batteryOf_bounds (p : Str) : 0 ≤ batteryOf p ∧ batteryOf p ≤ 100 := by
+  unfold batteryOf
+  split
+  · split
+    · rename_i h; exact h
+    · exact ⟨by omega, by omega⟩
+  · exact ⟨by omega, by omega⟩
+
+def setSubFacts (t : VTables) : Bool :=
+  (subTypesOf t t.mtSet).all (fun s => decide (0 ≤ s ∧ s ≤ 255)) &&
+  decide (t.mtPresentation ≠ t.mtInternal ∧ t.mtPresentation ≠ t.mtStream)
+
+theorem set_sub_facts (c : ConstId) : setSubFacts (Tables.tables c) = true := by cases c <;> decide
+
+theorem validate_set_sub_range (c : ConstId) (m : Msg) (hv : validate c m = true)
+    (ht : m.type = (Tables.tables c).mtSet) : 0 ≤ m.sub ∧ m.sub ≤ 255 := by
+  have hf := set_sub_facts c
+  simp only [setSubFacts, Bool.and_eq_true, List.all_eq_true, decide_eq_true_eq] at hf
+  simp only [validate, headerOk, Bool.and_eq_true] at hv
+  have hs := hv.1.2
+  rw [ht] at hs
+  exact hf.1 m.sub (by simpa using hs)
+
+theorem validate_child_range (c : ConstId) (m : Msg) (hv : validate c m = true)
+    (ht : m.type = (Tables.tables c).mtPresentation) : 0 ≤ m.child ∧ m.child ≤ 255 := by
+  have hf := set_sub_facts c
+  simp only [setSubFacts, Bool.and_eq_true, decide_eq_true_eq] at hf
+  simp only [validate, headerOk, childOk, Bool.and_eq_true, decide_eq_true_eq] at hv
+  have hch := hv.1.1.1.1.2
+  have n1 : ¬ (m.type = (Tables.tables c).mtInternal ∧
+      (some m.sub = (Tables.tables c).iIdRequest ∨ some m.sub = (Tables.tables c).iIdResponse)) := by
+    intro h; rw [ht] at h; exact hf.2.1 h.1
+  have n2 : ¬ (m.type = (Tables.tables c).mtInternal ∨ m.type = (Tables.tables c).mtStream) := by
+    intro h; rw [ht] at h; exact h.elim hf.2.1 hf.2.2
+  rw [if_neg n1, if_neg n2] at hch
+  have := of_decide_eq_true hch
+  simpa [Tables.systemChildId] using this
+
+theorem updateChildValue_bounds (n : Node) (c0 vt0 : Int) (v0 : Str) (hvt : 0 ≤ vt0 ∧ vt0 ≤ 255)
+    (hb : NodeBounds n) : NodeBounds (updateChildValue n c0 vt0 v0) := by
+  unfold updateChildValue
+  cases hc : aget c0 n.children with
+  | none => exact hb
+  | some ch0 =>
+    simp only
+    have e : ∀ x : Node, (clearDesired x c0 vt0).children = x.children ∧ (clearDesired x c0 vt0).battery = x.battery ∧
+        (clearDesired x c0 vt0).version = x.version := by
+      intro x; unfold clearDesired; split <;> exact ⟨rfl, rfl, rfl⟩
+    obtain ⟨e1, e2, e3⟩ := e { n with children := aset c0 { ch0 with values := aset vt0 v0 ch0.values } n.children }
+    refine ⟨?_, by rw [e2]; exact hb.2.1, by rw [e3]; exact hb.2.2⟩
+    rw [e1]
+    intro p hp
+    rcases mem_aset _ _ _ p hp with h | h
+    · exact hb.1 p h
+    · subst h
+      have hold := hb.1 (c0, ch0) (aget_mem c0 ch0 n.children hc)
+      refine ⟨hold.1, ?_⟩
+      intro q hq
+      rcases mem_aset _ _ _ q hq with h' | h'
+      · exact hold.2 q h'
+      · subst h'; exact hvt
+
 /-! ### handlers -/
 
-theorem eo_handlePresentation {c : ConstId} (g : GW) (m : Msg) (hc : g.const = c) (ha : Accepted c m) :
-    EO c g (handlePresentation g m) := by
+theorem eo_handlePresentation {c : ConstId} (g : GW) (m : Msg) (hc : g.const = c) (ha : Accepted c m)
+    (ht : m.type = (Tables.tables c).mtPresentation) : EO c g (handlePresentation g m) := by
   have hnr := validate_node_range c m ha.1
   unfold handlePresentation
   split
@@ -303,6 +413,7 @@ theorem eo_handlePresentation {c : ConstId} (g : GW) (m : Msg) (hc : g.const = c
       { n with type := some m.sub, version := (safeVersion m.payload).getD defaultVersion, reboot := false } m hn rfl
       (fun hi => hi.queue _ n hn) (fun hi cid ch vt v h1 h2 => hi.values _ n cid ch vt v hn h1 h2)
       (fun hi cid dv vt v h1 h2 => hi.desired _ n cid dv vt v hn h1 h2)
+      (fun hi => ⟨(hi.bounds _ n hn).1, (hi.bounds _ n hn).2.1, ⟨m.payload, rfl⟩⟩)
   · unfold presentChild
     apply eo_ifKnown g m.node none _ hc hnr; intro _
     apply eo_withNode; intro n hn
@@ -311,7 +422,15 @@ theorem eo_handlePresentation {c : ConstId} (g : GW) (m : Msg) (hc : g.const = c
     · rename_i hnone
       refine eo_setNode_alert g m.node n
         { n with children := n.children ++ [(m.child, ⟨m.child, m.sub, m.payload, []⟩)] } m hn rfl
-        (fun hi => hi.queue _ n hn) ?_ ?_
+        (fun hi => hi.queue _ n hn) ?_ ?_ ?_
+      rotate_left 2
+      · intro hi
+        refine ⟨?_, (hi.bounds _ n hn).2⟩
+        intro p hp
+        simp only [List.mem_append, List.mem_singleton] at hp
+        rcases hp with hp | rfl
+        · exact (hi.bounds _ n hn).1 p hp
+        · exact ⟨validate_child_range c m ha.1 ht, by intro q hq; simp at hq⟩
       · intro hi cid ch vt v h1 h2
         rw [aget_append_not_mem] at h1
         cases hj : aget cid n.children with
@@ -368,7 +487,10 @@ theorem eo_handleSet {c : ConstId} (g : GW) (m : Msg) (hc : g.const = c) (ha : A
   apply eo_withNode; intro n hn
   apply eo_seq
   · refine eo_setNode_alert g m.node n (updateChildValue n m.child m.sub m.payload) m hn
-      (updateChildValue_id _ _ _ _) ?_ ?_ ?_
+      (updateChildValue_id _ _ _ _) ?_ ?_ ?_ ?_
+    rotate_left 3
+    · intro hi
+      exact updateChildValue_bounds n m.child m.sub m.payload (validate_set_sub_range c m ha.1 ht) (hi.bounds _ n hn)
     · intro hi; rw [updateChildValue_queue]; exact hi.queue _ n hn
     · intro hi cid ch vt v h1 h2
       rcases updateChildValue_values n m.child m.sub m.payload cid ch vt v h1 h2 with ⟨_, rfl, rfl⟩ | ⟨ch0, h3, h4⟩
@@ -451,9 +573,18 @@ theorem eo_handleReq {c : ConstId} (g : GW) (m : Msg) (hc : g.const = c) (ha : A
 
 /-- attribute update of a known node (battery, sketch name/version, heartbeat) -/
 theorem eo_attr {c : ConstId} (g : GW) (k : Int) (n n' : Node) (m : Msg) (hn : aget k g.sensors = some n)
-    (hid : n'.id = n.id) (hch : n'.children = n.children) (hd : n'.desired = n.desired) (hq : n'.queue = n.queue) :
+    (hid : n'.id = n.id) (hch : n'.children = n.children) (hd : n'.desired = n.desired) (hq : n'.queue = n.queue)
+    (hbat : n'.battery = n.battery ∨ (0 ≤ n'.battery ∧ n'.battery ≤ 100)) (hver : n'.version = n.version) :
     EO c g (alert (setNode g k n') m) := by
-  refine eo_setNode_alert g k n n' m hn hid ?_ ?_ ?_
+  refine eo_setNode_alert g k n n' m hn hid ?_ ?_ ?_ ?_
+  rotate_left 3
+  · intro hi
+    have hb := hi.bounds _ n hn
+    refine ⟨by rw [hch]; exact hb.1, ?_, ?_⟩
+    · rcases hbat with e | e
+      · rw [e]; exact hb.2.1
+      · exact e
+    · rw [hver]; exact hb.2.2
   · intro hi; rw [hq]; exact hi.queue _ n hn
   · intro hi cid ch vt v h1 h2; rw [hch] at h1; exact hi.values _ n cid ch vt v hn h1 h2
   · intro hi cid dv vt v h1 h2; rw [hd] at h1; exact hi.desired _ n cid dv vt v hn h1 h2
@@ -461,7 +592,7 @@ theorem eo_attr {c : ConstId} (g : GW) (k : Int) (n n' : Node) (m : Msg) (hn : a
 theorem eo_handleHeartbeat {c : ConstId} (g : GW) (m : Msg) : EO c g (handleHeartbeat g m) := by
   unfold handleHeartbeat
   apply eo_withNode; intro n hn
-  exact eo_attr g m.node n { n with heartbeat := (pyInt m.payload).getD 0 } m hn rfl rfl rfl rfl
+  exact eo_attr g m.node n { n with heartbeat := (pyInt m.payload).getD 0 } m hn rfl rfl rfl rfl (Or.inl rfl) rfl
 
 theorem eo_handleIdRequest {c : ConstId} (g : GW) (m : Msg) (hc : g.const = c) (ha : Accepted c m)
     (ht : m.type = (Tables.tables c).mtInternal) (hk : KeyRange g) : EO c g (handleIdRequest g m) := by
@@ -525,13 +656,14 @@ theorem eo_handleInternalBy {c : ConstId} (h : HandlerId) (g : GW) (m : Msg) (hc
   · apply eo_ifKnown g m.node none _ hc hnr; intro _
     apply eo_withNode; intro n hn
     exact eo_attr g m.node n { n with battery := batteryOf m.payload } m hn rfl rfl rfl rfl
+      (Or.inr (batteryOf_bounds m.payload)) rfl
   · apply eo_ifKnown g m.node none _ hc hnr; intro _
     apply eo_withNode; intro n hn
-    exact eo_attr g m.node n { n with sketchName := some m.payload } m hn rfl rfl rfl rfl
+    exact eo_attr g m.node n { n with sketchName := some m.payload } m hn rfl rfl rfl rfl (Or.inl rfl) rfl
   · apply eo_ifKnown g m.node none _ hc hnr; intro _
     apply eo_withNode; intro n hn
-    exact eo_attr g m.node n { n with sketchVersion := some m.payload } m hn rfl rfl rfl rfl
-  · exact ⟨rfl, fun hi => ⟨hi.const, hi.ids, hi.queue, hi.values, hi.desired, hi.clock, hi.disk⟩,
+    exact eo_attr g m.node n { n with sketchVersion := some m.payload } m hn rfl rfl rfl rfl (Or.inl rfl) rfl
+  · exact ⟨rfl, fun hi => ⟨hi.const, hi.ids, hi.queue, hi.values, hi.desired, hi.clock, hi.disk, hi.bounds⟩,
       fun _ l hl => by simp [ret] at hl⟩
   · exact eo_alert c g m
   · -- gateway ready (>= 2.0): broadcast discover
@@ -639,7 +771,7 @@ theorem streamRes_sensors (h : HandlerId) (g : GW) (m : Msg) :
   · exact ⟨g.ota, rfl⟩
 
 theorem emitInv_setOta {c : ConstId} (g : GW) (o : OtaState) (hi : EmitInv c g) : EmitInv c { g with ota := o } :=
-  ⟨hi.const, hi.ids, hi.queue, hi.values, hi.desired, hi.clock, hi.disk⟩
+  ⟨hi.const, hi.ids, hi.queue, hi.values, hi.desired, hi.clock, hi.disk, hi.bounds⟩
 
 theorem eo_handleStream {c : ConstId} (g : GW) (m : Msg) (hc : g.const = c) (ha : Accepted c m)
     (ht : m.type = (Tables.tables c).mtStream) : EO c g (handleStream g m) := by
@@ -708,12 +840,12 @@ theorem eo_logic {c : ConstId} (g : GW) (line : Str) (hc : g.const = c) (hk : Ke
         unfold dispatchBy
         split
         · split
-          · exact eo_ignoreSubs g _ _ (eo_handlePresentation g m hc ha)
-          · exact eo_handlePresentation g m hc ha
-        · exact eo_handleSet g m hc ha (htf.1 rfl)
-        · exact eo_handleReq g m hc ha (htf.2.1 rfl)
-        · exact eo_handleInternal g m hc ha (htf.2.2.1 rfl) hk
-        · exact eo_handleStream g m hc ha (htf.2.2.2 rfl)
+          · exact eo_ignoreSubs g _ _ (eo_handlePresentation g m hc ha (htf.1 rfl))
+          · exact eo_handlePresentation g m hc ha (htf.1 rfl)
+        · exact eo_handleSet g m hc ha (htf.2.1 rfl)
+        · exact eo_handleReq g m hc ha (htf.2.2.1 rfl)
+        · exact eo_handleInternal g m hc ha (htf.2.2.2.1 rfl) hk
+        · exact eo_handleStream g m hc ha (htf.2.2.2.2 rfl)
         · exact eo_id c g _ rfl
     · exact eo_id c g {} rfl
 
@@ -740,7 +872,8 @@ theorem eo_storeDesired {c : ConstId} (g : GW) (node child : Int) (n : Node) (vt
         refine ⟨rfl, ?_, fun _ l hl => by simp [ret] at hl⟩
         intro hi
         refine emitInv_setNode g node n { n with desired := aset child (aset vti (some value) dv0) n.desired } hn rfl
-          (fun hi => hi.queue _ n hn) (fun hi cid ch vt v h1 h2 => hi.values _ n cid ch vt v hn h1 h2) ?_ hi
+          (fun hi => hi.queue _ n hn) (fun hi cid ch vt v h1 h2 => hi.values _ n cid ch vt v hn h1 h2) ?_
+          (fun hi => hi.bounds _ n hn) hi
         intro hi cid dv vt' v h1 h2
         simp only [aget_aset] at h1
         by_cases ec : cid = child
@@ -785,7 +918,7 @@ theorem emitInv_scheduleNode {c : ConstId} (fwt fwv : Int) (g : GW) (nid : Int) 
     have hi' := emitInv_setOta g { g.ota with unstarted := aerase nid g.ota.unstarted, started := aerase nid g.ota.started, requested := aset nid (fwt, fwv) g.ota.requested } hi
     exact emitInv_setNode _ nid n { n with reboot := true } hn rfl (fun hi => hi.queue _ n hn)
       (fun hi cid ch vt v h1 h2 => hi.values _ n cid ch vt v hn h1 h2)
-      (fun hi cid dv vt v h1 h2 => hi.desired _ n cid dv vt v hn h1 h2) hi'
+      (fun hi cid dv vt v h1 h2 => hi.desired _ n cid dv vt v hn h1 h2) (fun hi => hi.bounds _ n hn) hi'
 
 theorem emitInv_makeUpdate {c : ConstId} (g : GW) (nids : List Int) (fwt fwv : Int) (image : Option (List Nat))
     (hi : EmitInv c g) : EmitInv c (makeUpdate g nids fwt fwv image) := by
@@ -808,7 +941,7 @@ theorem emitInv_makeUpdate {c : ConstId} (g : GW) (nids : List Int) (fwt fwv : I
 theorem emitInv_save {c : ConstId} (g : GW) (hi : EmitInv c g) : EmitInv c (save g) := by
   unfold save
   split
-  · refine ⟨hi.const, hi.ids, hi.queue, hi.values, hi.desired, hi.clock, ?_⟩
+  · refine ⟨hi.const, hi.ids, hi.queue, hi.values, hi.desired, hi.clock, ?_, hi.bounds⟩
     intro d hd k p hp
     simp only [Option.some.injEq] at hd
     subst hd
@@ -823,7 +956,7 @@ theorem emitInv_save {c : ConstId} (g : GW) (hi : EmitInv c g) : EmitInv c (save
     | none => rw [hn] at hp; cases hp
     | some n =>
       rw [hn] at hp; simp at hp; subst hp
-      exact ⟨hi.ids k n hn, fun cid ch vt v h1 h2 => hi.values k n cid ch vt v hn h1 h2⟩
+      exact ⟨hi.ids k n hn, fun cid ch vt v h1 h2 => hi.values k n cid ch vt v hn h1 h2, hi.bounds k n hn⟩
   · exact hi
 
 theorem emitInv_restart {c : ConstId} (g : GW) (hi : EmitInv c g) : EmitInv c (restart g) := by
@@ -847,7 +980,11 @@ theorem emitInv_restart {c : ConstId} (g : GW) (hi : EmitInv c g) : EmitInv c (r
         | none => rw [hp] at hn; cases hn
         | some p => rw [hp] at hn; simp at hn; exact ⟨d, p, rfl, hp, hn.symm⟩
     · simp [aget] at hn
-  refine ⟨hi.const, ?_, ?_, ?_, ?_, hi.clock, hi.disk⟩
+  refine ⟨hi.const, ?_, ?_, ?_, ?_, hi.clock, hi.disk, ?_⟩
+  rotate_left 4
+  · intro k n hn
+    obtain ⟨d, p, hd, hp, rfl⟩ := key k n hn
+    exact (hi.disk d hd k p hp).2.2
   · intro k n hn
     obtain ⟨d, p, hd, hp, rfl⟩ := key k n hn
     exact (hi.disk d hd k p hp).1
@@ -856,7 +993,7 @@ theorem emitInv_restart {c : ConstId} (g : GW) (hi : EmitInv c g) : EmitInv c (r
     simp [PNode.restore] at hl
   · intro k n cid ch vt v hn h1 h2
     obtain ⟨d, p, hd, hp, rfl⟩ := key k n hn
-    exact (hi.disk d hd k p hp).2 cid ch vt v h1 h2
+    exact (hi.disk d hd k p hp).2.1 cid ch vt v h1 h2
   · intro k n cid dv vt v hn h1 _
     obtain ⟨d, p, _, _, rfl⟩ := key k n hn
     simp [PNode.restore, aget] at h1
@@ -885,10 +1022,10 @@ theorem eo_step {c : ConstId} (g : GW) (op : Op) (hc : g.const = c) (hk : KeyRan
     refine ⟨?_, fun hi => emitInv_makeUpdate g nids t v img hi, fun _ l hl => by simp [step] at hl⟩
     exact (rel_makeUpdate trStepRel g nids t v img).const
   | clock t =>
-    exact ⟨rfl, fun hi => ⟨hi.const, hi.ids, hi.queue, hi.values, hi.desired, hop, hi.disk⟩,
+    exact ⟨rfl, fun hi => ⟨hi.const, hi.ids, hi.queue, hi.values, hi.desired, hop, hi.disk, hi.bounds⟩,
       fun _ l hl => by simp [step] at hl⟩
   | metric b =>
-    exact ⟨rfl, fun hi => ⟨hi.const, hi.ids, hi.queue, hi.values, hi.desired, hi.clock, hi.disk⟩,
+    exact ⟨rfl, fun hi => ⟨hi.const, hi.ids, hi.queue, hi.values, hi.desired, hi.clock, hi.disk, hi.bounds⟩,
       fun _ l hl => by simp [step] at hl⟩
   | saveTick =>
     exact ⟨by simp only [step, save]; split <;> rfl, fun hi => emitInv_save g hi, fun _ l hl => by simp [step] at hl⟩
